@@ -28,6 +28,12 @@ VARIABLES l, verdict, exp
 vars == <<l, verdict, exp>>
 
 Tol == 1000        \* 1e-9, in units of 1e-12
+\* the annuity closed forms divide (1+r)^n - 1 by r: evaluated in doubles at a tiny non-zero rate they lose about log10(1/|r|) of
+\* their 16 digits, whatever the implementation (2.2e-16 / |r|, with a factor 10 in hand: 2e-3 / |r| in units of 1e-12).  The
+\* property equates the functions with the closed forms; how well doubles can evaluate them is not its subject
+TolFor(e) == IF e.f \in {"PMT", "PV"} /\ Len(e.args) >= 1 /\ e.args[1].t = "num" /\ e.args[1].n # 0
+             THEN Tol + (e.args[1].d \div 500) \div Abs(e.args[1].n)
+             ELSE Tol
 
 Call(f, a) == FinCall(f, a)
 
@@ -49,7 +55,7 @@ Verdict(e, x) ==
             IF ~(e.aux.slo >= 0 /\ e.aux.shi <= 0) THEN "not-the-root"
             ELSE IF x.t = "num" THEN "cmp" ELSE "ok"
     ELSE IF x.t = "num" THEN (IF Agrees(e.res, x) THEN "ok" ELSE "cmp")
-    ELSE IF e.aux.err <= Tol THEN "ok"
+    ELSE IF e.aux.err <= TolFor(e) THEN "ok"
     ELSE "wrong-value"
 
 Init == l = 0 /\ verdict = "start" /\ exp = [t |-> "none"]
